@@ -141,6 +141,10 @@ def run(ctx, rep):
                 else:
                     rep.ok("R-FUNNEL", b["key"], cfg=tag)
     c03.rule_gate_def(ctx, rep)  # a thread may also become the destroyer by observing `count == 1` through the gate (try_unwrap, into_inner)
+    balance.rule_count_addr(ctx, rep)
+    rep.floor("R-COUNT-ADDR", 1, "one instance per run")
+    balance.rule_use_after_release(ctx, rep)
+    rep.floor("R-USE-AFTER-RELEASE", 1, "the one decrementing body")
     rep.floor("R-ORD-1", 1, "one decrement")
     rep.floor("R-ORD-INC", 1, "one increment")
     rep.floor("R-ORD-2", 1, "one decrement-to-free region")
